@@ -15,6 +15,7 @@ ID = "C18"
 LEAN_MODULE = "SnowProofs.Props.C18"
 THEOREMS = [
     dict(name="Snow.C18.ints_exact", clause="an index list is accepted iff every index is in 0..N-1 and then records exactly the listed vials", strength="full"),
+    dict(name="Snow.C18.seq_non_int_rejected", clause="a list/tuple with a numpy scalar, float or other non-int, non-str entry is rejected (ValueError), nothing is truncated; int/bool entries are their values", strength="full"),
     dict(name="Snow.C18.group_exact", clause="a group request records exactly getVialGroup of the first group word found", strength="full"),
     dict(name="Snow.C18.uniform_request", clause="a 'uniform n' request records every ceil(len/n)-th vial of the group (what the interpretation computes)", strength="full"),
     dict(name="Snow.C18.random_request", clause="a 'random n' request records the supplied choice, or is rejected (ValueError) when n exceeds the group", strength="full"),
@@ -34,12 +35,15 @@ TRUSTED = [
     "that the simulated dynamics do not depend on the mask is established for the code only by the comparison of real runs (subset run vs full run, bit for bit)",
 ]
 ASSUMPTIONS = [
-    "request strings are ASCII; integer requests are Python ints",
+    "request strings are ASCII; entries of list/tuple requests are Python ints, bools, floats, strings or numpy scalars "
+    "(the model receives the entry's type); a numpy *integer* entry may be accepted or rejected by the property, the "
+    "model mirrors the code (rejected)",
     "shapes with n_y >= 2 or flat square single rows (the topology of other single-row shapes is C09's subject)",
     "the subset run and the full run are separate objects constructed with the same seeds; no re-seeding between construction and run",
 ]
 RULE = ("random shapes (n_x, n_y <= 5, n_z <= 3, both arrangements) x requests from a grammar (index lists with "
-        "duplicates / out of range, every group name in several spellings, random/uniform with and without count, "
+        "duplicates / out of range, lists given entry by entry with Python ints, bools, numpy integer and floating "
+        "scalars, floats and names, every group name in several spellings, random/uniform with and without count, "
         "counts 0 and larger than the group, ambiguous strings, lists of requests, malformed requests); every case "
         "constructs the real object, runs a short real simulation with the request and with 'all' (same seeds) and "
         "compares every stored value bit for bit; a case is non-trivial when the request is accepted, at least one "
@@ -87,6 +91,25 @@ def _recording(log):
         np.random.default_rng = real
 
 
+_NP = {"npint64": np.int64, "npint32": np.int32, "npuint8": np.uint8, "npfloat64": np.float64,
+       "npfloat32": np.float32}
+
+
+def _item(t, v):
+    """one entry of a list/tuple request with the given Python type"""
+    if t in _NP:
+        return _NP[t](v)
+    return {"int": int, "bool": bool, "float": float, "str": str}[t](v)
+
+
+def _model_item(t, v):
+    if t.startswith("npint") or t.startswith("npuint"):
+        return ["npint", int(v)]
+    if t.startswith("npfloat") or t == "float":
+        return ["float", 0]
+    return [t, v]
+
+
 def to_py(spec):
     k = spec["kind"]
     if k == "none":
@@ -99,6 +122,9 @@ def to_py(spec):
         return tuple(spec["strs"]) if spec.get("tuple") else list(spec["strs"])
     if k == "mixed":
         return [0, "all"]
+    if k == "seq":
+        xs = [_item(t, v) for t, v in spec["items"]]
+        return tuple(xs) if spec.get("tuple") else xs
     if k == "other":
         return {"int": 5, "float": 3.5, "dict": {"a": 1}, "set": {1, 2}}[spec["py"]]
     raise ValueError(k)
@@ -167,6 +193,8 @@ def run_impl(case):
 def run_model(drv, case, impl):
     sh = {"arr": case["arr"], "nx": case["nx"], "ny": case["ny"], "nz": case["nz"]}
     req = dict(op="store", **sh, **{k: v for k, v in case["spec"].items() if k in ("kind", "ints", "str", "strs")})
+    if case["spec"]["kind"] == "seq":
+        req["items"] = [_model_item(t, v) for t, v in case["spec"]["items"]]
     req["choices"] = [c["out"] for c in impl.get("choices", [])]
     r = drv.call(req)
     if "error" in r:
@@ -294,6 +322,28 @@ def predicates(case, impl):
         if valid and not raised and impl["mask"] != sorted(set(sp["ints"])):
             out.append(Failure(clause="ints_exact", key=f"ints_exact|{site}|",
                                detail=f"{where}: records {impl['mask']}"))
+    elif sp["kind"] == "seq":
+        types = [t for t, _ in sp["items"]]
+        floaty = any(t in ("float", "npfloat64", "npfloat32") for t in types)
+        strs = [t == "str" for t in types]
+        if floaty or (any(strs) and not all(strs)):
+            # an index list consists of integers: no truncation, no mixing with names
+            must_raise = True
+        elif types and all(t == "bool" for t in types):
+            # numpy reads a list of bools only as a boolean mask: accepted iff its length is N
+            if not raised and (len(types) != N or impl["mask"] != [i for i, (_, v) in enumerate(sp["items"]) if v]):
+                out.append(Failure(clause="ints_exact", key=f"ints_exact|{site}|boolmask",
+                                   detail=f"{where}: records {impl['mask']}"))
+        elif not any(strs):
+            vals = [int(v) for _, v in sp["items"]]
+            valid = all(0 <= x < N for x in vals)
+            if not valid:
+                must_raise = True
+            elif all(t in ("int", "bool") for t in types):
+                must_raise = False
+            if valid and not raised and impl["mask"] != sorted(set(vals)):
+                out.append(Failure(clause="ints_exact", key=f"ints_exact|{site}|seq",
+                                   detail=f"{where}: records {impl['mask']}"))
     elif sp["kind"] == "none":
         must_raise = False
         if not raised and (impl["mask"] or impl["xshape"][0] != 0):
@@ -385,7 +435,38 @@ def _string(rng, N):
     return rng.choice(["foo", "", "gibberish", "2random3", "random_2_3", "uniform 1 2", "rand", "unifrom_3", "12"])
 
 
+def _seq(rng, N):
+    """list/tuple requests entry by entry: python ints, bools, numpy integer and floating scalars, floats, names"""
+    k = rng.choice([1, 2, 2, 3, 4])
+    flavour = rng.choice(["npint", "npfloat", "npfloat", "float", "bool", "mix", "npfloat_whole"])
+    items = []
+    for _ in range(k):
+        v = rng.randrange(N)
+        if flavour == "npint":
+            items.append([rng.choice(["npint64", "npint32", "int"]), v])
+        elif flavour == "npfloat":
+            items.append(rng.choice([["npfloat64", v + rng.choice([0.5, 0.25, 0.9])], ["npfloat32", v + 0.9],
+                                     ["npfloat64", -0.5], ["npfloat64", N - 1 + 0.9], ["int", v]]))
+        elif flavour == "npfloat_whole":
+            items.append([rng.choice(["npfloat64", "npfloat32"]), float(v)])
+        elif flavour == "float":
+            items.append(rng.choice([["float", v + 0.5], ["float", float(v)], ["int", v]]))
+        elif flavour == "bool":
+            items.append(rng.choice([["bool", True], ["bool", False], ["int", v]]))
+        else:
+            items.append(rng.choice([["int", v], ["npint64", v], ["npfloat64", v + 0.5], ["str", "all"], ["bool", True],
+                                     ["npuint8", v % 200]]))
+    if flavour == "bool" and rng.random() < 0.3:
+        items = [["bool", rng.random() < 0.4] for _ in range(N)]
+    if flavour in ("npint", "npfloat") and rng.random() < 0.2:
+        items.append([rng.choice(["npint64", "int"]), rng.choice([N, -1])])
+    return {"kind": "seq", "items": items, "tuple": rng.random() < 0.3}
+
+
 def _spec(rng, N):
+    r = rng.random()
+    if r < 0.12:
+        return _seq(rng, N)
     r = rng.random()
     if r < 0.22:
         k = rng.choice([0, 1, 2, 3, N])
@@ -432,6 +513,14 @@ def cases(rng, tier):
             yield dict(kind="documented", arr=arr, nx=3, ny=3, nz=1, seed=2021, spec=spec)
         yield dict(kind="documented", arr=arr, nx=4, ny=3, nz=1, seed=2021,
                    spec={"kind": "ints", "ints": [0, 4, 10], "tuple": True})
+        # index lists with numpy scalars: list(np.linspace(0, 8, 4)), [np.float64(1.5), 2], (np.float64(-0.5), 2),
+        # [0, np.float32(8.9)], list(np.where(mask)[0]), [True, 2]
+        for items, tup in (([["npfloat64", 0.0], ["npfloat64", 8 / 3], ["npfloat64", 16 / 3], ["npfloat64", 8.0]], False),
+                           ([["npfloat64", 1.5], ["int", 2]], False), ([["npfloat64", -0.5], ["int", 2]], True),
+                           ([["int", 0], ["npfloat32", 8.9]], False), ([["npint64", 0], ["npint64", 4]], False),
+                           ([["bool", True], ["int", 2]], False), ([["float", 2.0]], False)):
+            yield dict(kind="documented", arr=arr, nx=3, ny=3, nz=1, seed=2021,
+                       spec={"kind": "seq", "items": items, "tuple": tup})
     for _ in range(n):
         yield _case(rng)
 
